@@ -125,6 +125,43 @@ def gen_text(rng, with_count=False):
     return rng.choice([" ", " ", "", "\n"]).join(parts)
 
 
+INT_BOUNDS = {"i8": (-2 ** 7, 2 ** 7 - 1), "i16": (-2 ** 15, 2 ** 15 - 1), "i32": (-2 ** 31, 2 ** 31 - 1), "i64": (-2 ** 63, 2 ** 63 - 1),
+              "u8": (0, 2 ** 8 - 1), "u16": (0, 2 ** 16 - 1), "u32": (0, 2 ** 32 - 1), "u64": (0, 2 ** 64 - 1), None: (-2 ** 31, 2 ** 31 - 1)}
+# numeric counts every front-end must be able to hand over: json5 reads every integer as i64, so counts above i64::MAX (only
+# possible for u64) are rejected by the json5 crate itself ("error parsing integer") on the unchanged tree and are left out
+BOUNDARY_DROPPED = {"u64": {"values": [2 ** 64 - 2, 2 ** 64 - 1], "replaced_by": [2 ** 63 - 2, 2 ** 63 - 1],
+                            "why": "the json5 crate parses every integer as i64: values above i64::MAX are a json5 syntax error, not a range error"}}
+
+
+def boundary_values(typ):
+    lo, hi = INT_BOUNDS[typ]
+    vals = [lo, lo + 1, -1, 0, 1, hi - 1, hi]
+    if typ == "u64":
+        vals = [lo, lo + 1, 0, 1, 2 ** 63 - 2, 2 ** 63 - 1]
+    return sorted(set(v for v in vals if lo <= v <= hi))
+
+
+def boundary_range(rng):
+    """an integer range whose numeric (unquoted) counts sit on the boundaries of its type: MIN, MIN+1, -1, 0, 1, MAX-1, MAX, as exact
+    counts, as several counts of one branch, and next to a range string"""
+    typ = rng.choice(list(INT_BOUNDS))
+    vals = boundary_values(typ)
+    seq = [typ] if typ else []
+    picks = rng.sample(vals, min(len(vals), rng.randint(2, 3)))
+    hi = INT_BOUNDS[typ][1] if typ != "u64" else 2 ** 63 - 1
+    if rng.random() < 0.7 and hi not in picks:
+        picks[-1] = hi
+    for i, v in enumerate(picks):
+        if i == 0 and len(picks) > 2 and rng.random() < 0.5:
+            seq.append([gen_text(rng), v, picks[1]])            # several numeric counts in one branch
+        elif rng.random() < 0.25:
+            seq.append([gen_text(rng), v, "%d..=%d" % (min(vals), min(vals) + 1)])
+        else:
+            seq.append([gen_text(rng), v])
+    seq.append([gen_text(rng, True)])
+    return seq
+
+
 def gen_leaf(rng):
     r = rng.random()
     if r < 0.62:
@@ -136,6 +173,8 @@ def gen_leaf(rng):
     if r < 0.80:
         return ("bool", rng.random() < 0.5)
     # ranges: a sequence (its own order is content, never permuted)
+    if rng.random() < 0.4:
+        return ("seq", boundary_range(rng))
     typ = rng.choice([None, None, "u32", "i64", "f32"])
     seq = [typ] if typ else []
     if typ == "f32":
@@ -374,9 +413,13 @@ def num_spelling(v, fmt, rng):
         n = v[1]
         opts = [str(n)]
         if fmt == "json5" and n > 0:
-            opts += ["+%d" % n, "0x%X" % n, "0x%x" % n]
+            opts += ["+%d" % n]
+            if n < 2 ** 31:               # the json5 crate cannot read larger hexadecimal literals ("error parsing hex")
+                opts += ["0x%X" % n, "0x%x" % n]
         if fmt == "yaml" and n > 0:
-            opts += ["+%d" % n, "0x%x" % n, "0o%o" % n]
+            opts += ["+%d" % n]
+            if n < 2 ** 31:
+                opts += ["0x%x" % n, "0o%o" % n]
         o = rng.choice(opts)
         spelled(fmt, "int " + ("hex" if "x" in o else "octal" if "o" in o else "signed" if o[0] in "+-" else "plain"))
         return o
@@ -1101,6 +1144,7 @@ def _run(ctx, bindirs, ok, problems, root):
         "evaluations": len(results), "distinct_nontrivial": nontrivial,
         "projects": len(projects), "loads_in_fresh_processes": len(results), "codegen_runs": sum(1 for r in results if r["codegen"]),
         "spellings_written": dict(sorted(SPELLINGS.items())),
+        "range_boundary_counts": {"per_type": {str(t): boundary_values(t) for t in INT_BOUNDS}, "dropped": BOUNDARY_DROPPED},
         "coq_cases": len(items), "coq_codes": {str(c): codes.count(c) for c in sorted(set(codes))},
         "coq_codes_2_3_by_fault": {"%d/%s" % (c, projects[m[0]].get("fault")): sum(1 for mm, cc in zip(meta, codes) if cc == c and
                                    projects[mm[0]].get("fault") == projects[m[0]].get("fault")) for m, c in zip(meta, codes) if c in (2, 3)},
